@@ -318,10 +318,14 @@ func launchedWith(l []*world.FakeCmd, p sc.ProcSpec) string {
 	if cmd.Dir != p.WorkingDir {
 		return fmt.Sprintf("launched in %q, the new configuration says %q", cmd.Dir, p.WorkingDir)
 	}
+	eff := map[string]string{} // a key listed twice: the last entry is the one the command sees
 	for _, kv := range p.Env {
 		k := kv[:strings.IndexByte(kv, '=')]
-		if got, ok := lastEnv(cmd.Env, k); !ok || got != kv[len(k)+1:] {
-			return fmt.Sprintf("launched with %s=%q (present=%v), the new configuration says %q", k, got, ok, kv)
+		eff[k] = kv[len(k)+1:]
+	}
+	for k, want := range eff {
+		if got, ok := lastEnv(cmd.Env, k); !ok || got != want {
+			return fmt.Sprintf("launched with %s=%q (present=%v), the new configuration says %q", k, got, ok, want)
 		}
 	}
 	return ""
@@ -356,7 +360,28 @@ func genSpec(t *rapid.T, name string, earlier []string) sc.ProcSpec {
 func mutate(t *rapid.T, p sc.ProcSpec, others []string) sc.ProcSpec {
 	n := pbt.Range(t, 1, 2)
 	for i := 0; i < n; i++ {
-		switch pbt.Pick(t, []string{"cmd", "exe", "arg", "envchg", "envadd", "envdel", "dir", "probe", "policy", "backoff", "dep", "desc", "ns", "signal"}) {
+		switch pbt.Pick(t, []string{"cmd", "exe", "arg", "envchg", "envadd", "envdel", "envswap", "dir", "probe", "policy", "backoff", "dep", "desc", "ns", "signal"}) {
+		case "envswap":
+			// the same entries in another order, with one key listed twice: the effective value changes
+			env := append([]string(nil), p.Env...)
+			if len(env) == 0 {
+				env = []string{"MODE=dev"}
+			}
+			k := env[0][:strings.IndexByte(env[0], '=')]
+			dup := false
+			for _, kv := range env[1:] {
+				if strings.HasPrefix(kv, k+"=") {
+					dup = true
+				}
+			}
+			if !dup {
+				env = append(env, k+"=other")
+			} else {
+				for i, j := 0, len(env)-1; i < j; i, j = i+1, j-1 {
+					env[i], env[j] = env[j], env[i]
+				}
+			}
+			p.Env = env
 		case "cmd":
 			if len(p.Entrypoint) == 0 {
 				p.Command = p.Command + " --v2"
